@@ -14,4 +14,5 @@ TARGETS = {
     "c04_mates_net0": dict(flavours=["fast"], src=["harness/c04_mates.cpp"], net=0),
     "c03_results": dict(flavours=["seq", "fast"], src=["harness/c03_results.cpp"], net=1),
     "c14_clearhash": dict(flavours=["seq", "fast"], src=["harness/c14_clearhash.cpp"], net=1),
+    "c11_draws": dict(flavours=["seq", "fast"], src=["harness/c11_draws.cpp"], net=1),
 }
